@@ -58,6 +58,15 @@ CLAIMED = {
          'rational -> nearest double, written in Z arithmetic). Known findings: round_tie_not_half_away, roundupdown_negative_direction, '
          'roundupdown_representable_float_product.',
     technique='Coq kernel-exhaustive sweep (vm_compute + forallb_forall) + bit-exact vm_compute correspondence', ref='6/C16'),
+ 'C13': dict(
+    text='Unbounded Coq theorem (size induction over expression trees with nested argument lists): on the decidable fragment `good` the '
+         'big-step semantics of the emitted code (conditional expression for IF, _iferror(lambda, eager fallback), _ifs over an eagerly '
+         'evaluated list) equals Excel\'s lazy semantics for every nesting depth, position (inside + - * / & comparisons, SUM) and leaf '
+         'value, failing leaves of any exception class included; IF never evaluates the untaken branch (for all expressions). Refutation '
+         'theorems for the eager IFERROR fallback, the #NULL! spelling and eager IFS. Correspondence on random nests through real formulas.',
+    note='The atomicity of the emitted IF text inside larger expressions is decided by the correspondence here (text-level model under C01). '
+         'Text conditions outside the domain. Known findings: iferror_fallback_eager_or_null_spelling, ifs_evaluates_everything.',
+    technique='Coq proof (structural/size induction on the expression model) + vm_compute correspondence', ref='6/C13'),
 }
 
 ids = [json.loads(l)['id'] for l in open('/verif/properties.jsonl')]
